@@ -69,7 +69,7 @@ Definition denote_arg (e : env) (a : warg) : list str :=
   end.
 Definition denote_args (e : env) (args : list warg) : list str := concat (map (denote_arg e) args).
 
-(* ---- known-finding classes (F9 = KF-C02-1/2, KF-C02-3); the same predicates are extracted and
+(* ---- known-finding classes (F9 = KF-C02-1, KF-C02-3); the same predicates are extracted and
    used by the check as classifiers ---- *)
 Definition has_char (c : char) (s : str) : bool := existsb (N.eqb c) s.
 
@@ -80,9 +80,9 @@ Fixpoint word_initial_quote_from (at_start : bool) (v : str) : bool :=
   | c :: v' => (at_start && (c =? c_quote)) || word_initial_quote_from (c =? c_sp) v'
   end.
 Definition known_spread_quote (v : str) : bool := word_initial_quote_from true v.
-(* KF-C02-2: the spread value contains '#' *)
-Definition known_spread_hash (v : str) : bool := has_char c_hash v.
-Definition known_spread_value (v : str) : bool := known_spread_quote v || known_spread_hash v.
+(* (KF-C02-2, '#' in a spread value dropping the rest, is repaired: with control_as_char the parser
+   treats '#' as an ordinary character, so the class is part of the theorem's domain) *)
+Definition known_spread_value (v : str) : bool := known_spread_quote v.
 
 (* KF-C02-3: a \${name} whose name is inside the property's quantifier (free of spaces, = and })
    but is not literal text (contains $, % or backslash) *)
